@@ -218,12 +218,12 @@ def record(args):
 
 def run(tier: str) -> int:
     chk = Check(PROP, tier)
-    chk.rule = ("stage A/B: every score table over the window cuts (values 0..V) x half-integer thresholds x "
+    chk.rule = ("stage A/B: every score table over the window cuts (values 0..V) x thresholds in steps of 1/2 (ties included) x "
                 "min_detection_interval within the constants; each case replayed (functions, class with two "
                 "columns, reversed table).  stage C: CUSUM and cost-based scores on lattice data incl. the reversed "
                 "series.  Non-trivial = at least one run of exceedances; distinct by hash of (n, b, table, thr, mdi).")
-    chk.assumptions = ["TLC/SANY and the Json module", "R3: deviations below tol*unit are rounding; runs whose "
-                       "score is within tol of the threshold are not judged"]
+    chk.assumptions = ["TLC/SANY and the Json module", "R3: deviations of score VALUES below tol*unit are rounding; runs and peaks "
+                       "are judged exactly, on dense ranks of the detector's own scores and threshold_"]
     with Workdir(PROP) as wd:
         cases = []
         for label, cs in STAGE_A[tier]:
